@@ -53,7 +53,7 @@ Section Group.
       rewrite E. eapply Permutation_trans; [|symmetry; apply (filter_split (fun x => eqb k (key x)))].
       apply Permutation_app_head. apply IH; [assumption|].
       intros x Hx. unfold l2 in Hx. apply filter_In in Hx. destruct Hx as [Hx Hb].
-      destruct (Hin x Hx) as [<-|H]; [|assumption].
+      destruct (Hin x Hx) as [Ek|H]; [|assumption]. rewrite Ek in Hb.
       destruct (eqb_spec (key x) (key x)); [discriminate|congruence].
   Qed.
 End Group.
@@ -85,7 +85,8 @@ Lemma collect_err elem k doc ks :
     collect_items elem (el_of (spec_item k doc) ks) = inl (NoOriginal elem (e_pos e)).
 Proof.
   induction ks as [|n ks IH]; intros Hk [m [Hm Hd]]; [destruct Hm|].
-  cbn [el_of map collect_items]. fold (el_of (spec_item k doc) ks). unfold spec_item at 1.
+  cbn [el_of map collect_items]. fold (el_of (spec_item k doc) ks).
+  change (spec_item k doc n) with (mkeitem (hd_error (defs_of k n doc)) (exts_of k n doc)).
   destruct (defs_of k n doc) as [|d r] eqn:E; cbn [ei_orig hd_error ei_exts].
   - destruct (exts_of k n doc) as [|e rest] eqn:Ee.
     + destruct (Hk n) as [H|H]; [now left|congruence|congruence].
@@ -128,10 +129,6 @@ Qed.
 
 (** ---- one kind ---- *)
 
-(** an extension of kind [k] whose name nobody of kind [k] defines *)
-Definition orphan_k (k : kind) (doc : list item) : Prop :=
-  exists n, In n (keys k doc) /\ defs_of k n doc = [].
-
 Definition kind_out (k : kind) (doc : list item) : list item :=
   map (fun x => IDef (merge_of k x)) (sort_by_pos (entries k doc)).
 
@@ -142,12 +139,6 @@ Proof.
   rewrite collect_ok; [reflexivity|].
   intros n Hn E. apply Hno. exists n. tauto.
 Qed.
-
-(** the first key (in first-occurrence order) without a definition yields the error *)
-Definition first_orphan (k : kind) (doc : list item) (e : ext) : Prop :=
-  exists pre n post rest,
-    keys k doc = pre ++ n :: post /\ (forall m, In m pre -> defs_of k m doc <> []) /\
-    defs_of k n doc = [] /\ exts_of k n doc = e :: rest.
 
 Lemma finish_kind_err k doc st :
   get k st = el_spec k doc -> orphan_k k doc ->
@@ -234,7 +225,7 @@ Lemma scan_ok_inv doc st :
   scan doc state0 = inr st ->
   (forall k, nodup_k k doc /\ get k st = el_spec k doc) /\ s_directives st = dirdefs doc.
 Proof.
-  intros H. apply scan_ok_proj in H. destruct H as [H1 H2]. split; [|exact H2].
+  intros H. destruct (scan_ok_proj _ _ _ H) as [H1 H2]. split; [|exact H2].
   intros k. specialize (H1 k). rewrite get_state0 in H1. apply scan1_ok_inv in H1. tauto.
 Qed.
 
@@ -267,7 +258,7 @@ Proof.
     - exists k. split; [apply all_kinds_listed|exact Ho].
     - congruence. }
   split; [split; [intros k; apply Hk|exact Hno]|].
-  rewrite finish_kinds_ok in Ef.
+  rewrite (finish_kinds_ok kinds_in_output_order doc st) in Ef.
   - inversion Ef; subst. unfold resolve_out. now rewrite Hd.
   - intros k _. split; [apply Hk|apply Hno].
 Qed.
